@@ -201,7 +201,7 @@ func (m *UDPMuxDefault) GetConn(ufrag string, addr net.Addr) (net.PacketConn, er
 		muxedConn = m.createMuxedConn(ufrag)
 		go func() {
 			<-muxedConn.CloseChannel()
-			m.RemoveConnByUfrag(ufrag)
+			m.removeClosedConn(ufrag, muxedConn)
 		}()
 
 		if isIPv6 {
@@ -247,6 +247,39 @@ func (m *UDPMuxDefault) RemoveConnByUfrag(ufrag string) {
 	for _, c := range removedConns {
 		addresses := c.getAddresses()
 		for _, addr := range addresses {
+			delete(m.addressMap, addr)
+		}
+	}
+}
+
+// removeClosedConn unregisters conn after it has been closed. Unlike
+// RemoveConnByUfrag it only removes the entries that still refer to conn, so a
+// connection registered later under the same ufrag is left alone.
+func (m *UDPMuxDefault) removeClosedConn(ufrag string, conn *udpMuxedConn) {
+	removed := false
+
+	m.mu.Lock()
+	if c, ok := m.connsIPv4[ufrag]; ok && c == conn {
+		delete(m.connsIPv4, ufrag)
+		removed = true
+	}
+	if c, ok := m.connsIPv6[ufrag]; ok && c == conn {
+		delete(m.connsIPv6, ufrag)
+		removed = true
+	}
+	m.mu.Unlock()
+
+	if !removed {
+		// Already removed, e.g. by RemoveConnByUfrag, which also dropped
+		// its address bindings.
+		return
+	}
+
+	m.addressMapMu.Lock()
+	defer m.addressMapMu.Unlock()
+
+	for _, addr := range conn.getAddresses() {
+		if m.addressMap[addr] == conn {
 			delete(m.addressMap, addr)
 		}
 	}
